@@ -36,6 +36,7 @@ type item struct {
 type script struct {
 	Items     []item   `json:"items"`
 	HasStopFn bool     `json:"hasStopFn"`
+	StopErr   bool     `json:"stopErr"` // the stop routine of M returns an error
 	Dep       bool     `json:"dep"`
 	Mode      string   `json:"mode"` // shutdown | manage
 	Policy    []string `json:"policy"`
@@ -62,6 +63,7 @@ var (
 	mu       sync.Mutex
 	launched = map[string]bool{}
 	runs     = map[string]int{}
+	endedRun = map[string]bool{}
 	tasks    = map[string]*modules.Task{}
 	stopRet  = make(chan struct{})
 	stopOnce sync.Once
@@ -96,6 +98,9 @@ func finish(it *item) error {
 		return nil
 	case "err":
 		return errors.New("injected failure")
+	case "restartnow":
+		// e.g. an accept loop whose listener went away: "restart me at once"
+		return fmt.Errorf("listener closed: %w", modules.ErrRestartNow)
 	case "panic_nil":
 		panic(nil) //nolint
 	case "panic_rt":
@@ -114,6 +119,10 @@ func work(it *item) func(ctx context.Context) error {
 		runs[it.ID]++
 		n := runs[it.ID]
 		mu.Unlock()
+		if n > 1 && it.Out == "restartnow" && ctx.Err() != nil {
+			// asked to restart at once although the module is being stopped: keeps asking
+			return fmt.Errorf("listener closed: %w", modules.ErrRestartNow)
+		}
 		if n > 1 {
 			// service worker restarted / task ran again after a failure
 			if n == 2 {
@@ -135,6 +144,9 @@ func work(it *item) func(ctx context.Context) error {
 			time.Sleep(20 * time.Millisecond)
 		}
 		emit(map[string]any{"e": "wend", "i": it.ID, "ctxdone": ctx.Err() != nil})
+		mu.Lock()
+		endedRun[it.ID] = true
+		mu.Unlock()
 		return finish(it)
 	}
 }
@@ -228,6 +240,22 @@ func runAgain() {
 		time.Sleep(200 * time.Microsecond)
 	}
 	emit(map[string]any{"e": "note", "parked": sch.ParkedActors()})
+	// a task is queued again only after its first run has ended (a loaded machine may take its time)
+	for deadline := time.Now().Add(5 * time.Second); time.Now().Before(deadline); {
+		pending := false
+		mu.Lock()
+		for id := range tasks {
+			if runs[id] > 0 && !endedRun[id] {
+				pending = true
+			}
+		}
+		mu.Unlock()
+		if !pending {
+			break
+		}
+		time.Sleep(time.Millisecond)
+	}
+	time.Sleep(5 * time.Millisecond) // the deferred bookkeeping of the run (executing = false)
 	mu.Lock()
 	for id, t := range tasks {
 		if byID[id].Out != "ok" && runs[id] > 0 {
@@ -340,7 +368,7 @@ func main() {
 		}
 	}
 	tr.Emit(map[string]any{"e": "init", "ids": ids, "kinds": kinds, "outs": outs, "hasStopFn": sc.HasStopFn,
-		"panics": pans, "failing": fails, "backoffs": bos, "mode": sc.Mode, "h": 0, "t": 0})
+		"panics": pans, "failing": fails, "backoffs": bos, "mode": sc.Mode, "dep": sc.Dep, "stopErr": sc.StopErr, "h": 0, "t": 0})
 
 	// error channel collector
 	repCh := make(chan *modules.ModuleError, 1000)
@@ -375,6 +403,9 @@ func main() {
 			emit(map[string]any{"e": "fnbegin", "ctxdone": modM.Ctx.Err() != nil})
 			sch.Yield("fn", "fn")
 			emit(map[string]any{"e": "fnend"})
+			if sc.StopErr {
+				return errors.New("injected stop failure")
+			}
 			return nil
 		}
 	}
